@@ -65,6 +65,7 @@ class Run:
     self.known_hits = {}   # key -> what
     self.notes = []
     self.findings = [f for f in load_findings() if f.get("property") == prop]
+    shutil.rmtree(os.path.join(VERIF, "replays", prop), ignore_errors=True)
 
   def add(self, **kw):
     for k, v in kw.items():
